@@ -58,9 +58,15 @@ def check(run):
              'current / lagged - 1 guarded by both operands being non-null and a non-zero base')
     for cfg in configs(run):
         F = run.facts(cfg)
+        # helpers this property stands on (rule sets owned by other properties, see common.deps)
+        from common import deps as _deps
+        _deps(run, F, 'isnone', 'casts')
         lag.check_lag(run, F)
         elem_fns(run, F)
         maps(run, F)
+    # every container the generic code can be instantiated with hands out its elements in logical order
+    from common import dep_backends as _dep_backends
+    _dep_backends(run)
     return run.finish(
         'other',
         'Lag family (shift, vshift, vdiff, vpct_change): for all symbolic len and n the '
